@@ -230,6 +230,7 @@ def init(ctx):
         ef = None
     if ef is not None:
         I = A.Interp(facts)
+        I.widen_at = 40   # a loop over a three-entry constant table is unrolled exactly
         # all 8 R/W/X combinations, alone and with every other p_flags bit (OS / processor specific bits are legal and
         # must not leak into the permission mask): 8 x (1 + 29 single bits + all of them)
         extras = [0] + [1 << i for i in range(3, 32)] + [0xFFFFFFF8]
